@@ -213,7 +213,7 @@ def rule_intarg(facts):
     i64::MIN, `(from - 1) as usize` turns 0 and negative positions into ~2^64 loop iterations (the statement never returns)."""
     r = RuleResult("C20-INTARG", "SQL integer arguments of string functions are never negated raw, and are used in overflow-checked arithmetic or converted to "
                    "an unsigned count only where a comparison of that argument has established it is non-negative", floor=6)
-    for rec in facts.all_fns(["glaredb_core"]):
+    for rec in facts.all_fns(["glaredb_core"], contains="::functions::scalar::builtin::string::"):
         if "::functions::scalar::builtin::string::" not in rec["id"] or "::tests::" in rec["id"]:
             continue
         fn = Fn(rec)
@@ -290,7 +290,7 @@ def rule_subguard(facts):
     through; comparing against a different quantity (the byte length instead of the character count) is not that comparison."""
     r = RuleResult("C20-SUBGUARD", "every unsigned subtraction in the string functions is dominated by a comparison of the same two values that excludes "
                    "minuend < subtrahend", floor=4)
-    for rec in facts.all_fns(["glaredb_core"]):
+    for rec in facts.all_fns(["glaredb_core"], contains="::functions::scalar::builtin::string::"):
         if "::functions::scalar::builtin::string::" not in rec["id"] or "::tests::" in rec["id"]:
             continue
         fn = Fn(rec)
